@@ -93,14 +93,15 @@ def fails(mask: int, R: int, point: int, r: int) -> bool:
     return bool((mask >> ((r + point) % R)) & 1)
 
 
-def reference(config: Any, values: np.ndarray, failed: np.ndarray, n_obj: int, emap, fmap) -> dict[str, Any]:
+def reference(config: Any, values: np.ndarray, failed: np.ndarray, n_obj: int, emap, fmap, rms: int | None = None) -> dict[str, Any]:
     """Reference for one point. values (R,F) finite; failed (R,) bool."""
     from ropt.exceptions import OptimizationAborted
     from ropt.plugins.realization_filter.default import DefaultRealizationFilter
 
     R, F = values.shape
     out: dict[str, Any] = {"abort": False, "none": False, "values": [None] * F, "fweights": {}}
-    rms = config.realizations.realization_min_success
+    # the REQUESTED threshold (clamped to the ensemble size), not what the validated configuration reports
+    rms = config.realizations.realization_min_success if rms is None else min(rms, R)
     nanvals = values.copy()
     nanvals[failed, :] = np.nan
     for f in sorted({x for x in fmap if x >= 0}):
@@ -181,7 +182,7 @@ def judge(case: dict[str, Any]) -> Judgement:
     refs = []
     for point in range(3):
         failed = np.array([fails(mask, R, point, r) for r in range(R)])
-        refs.append((failed, reference(config, tab[point], failed, n_obj, emap, fmap)))
+        refs.append((failed, reference(config, tab[point], failed, n_obj, emap, fmap, rms=case["rms"])))
 
     transitions = 0
     nontrivial_pairs = 0
